@@ -11,6 +11,8 @@ pub mod subj;
 pub mod mvr;
 pub mod refs;
 pub mod ind;
+pub mod grid;
+pub mod api;
 
 pub struct ReplayReq {
 	pub system: String,
